@@ -4,9 +4,16 @@ text and a scratch worktree; nothing from /verif)."""
 import json, sys
 pid = sys.argv[1]
 n = int(sys.argv[2]) if len(sys.argv) > 2 else 3
+rnd = sys.argv[3] if len(sys.argv) > 3 else ""
 props = {json.loads(l)["id"]: json.loads(l) for l in open("/verif/properties.jsonl") if l.strip()}
 p = props[pid]
 wt = f"/tmp/seed/wt_{pid}"
+out = f"/tmp/seed/out{rnd}_{pid}"
+import glob, os
+earlier = []
+for mf in sorted(glob.glob(f"/verif/seeded/{pid}-r*/meta.json")):
+    earlier.append(json.load(open(mf)).get("summary", "")[:240])
+excl = ("\n\nChanges of this kind were already produced in an earlier round; do NOT repeat them or close variations of them — find different constructs, different clauses of the property and different mechanisms:\n" + "\n".join(f"  - {e}" for e in earlier)) if (rnd and earlier) else ""
 print(f"""You are helping to evaluate a verification tool for the Python library pyhms (agh-a2s/pyhms: a Hierarchic Memetic Strategy — a tree of evolutionary sub-populations ("demes": SEA, DE, SHADE, CMA-ES, local search, LHS, Sobol) with sprouting and stop conditions). You get a private scratch git worktree of the library at {wt} (source under {wt}/pyhms, tests under {wt}/test). Work ONLY inside {wt} and /tmp/seed/out_{pid}. Never touch /repo or /verif, and never run `git commit`.
 
 The library is supposed to satisfy this property:
@@ -22,10 +29,12 @@ How to run things (offline sandbox; no network; do not install anything):
   * scripts: cd {wt} && PYTHONPATH={wt} /venv/bin/python your_script.py       (PYTHONPATH is essential: otherwise `import pyhms` resolves to another checkout; check once, e.g. by printing pyhms.__file__, that it points into {wt})
   * some tests are randomised but seeded; run the suite once per variant.
 
-For each variant k = 1..{n} create the directory /tmp/seed/out_{pid}/{{k}}/ containing:
+For each variant k = 1..{n} create the directory {out}/{{k}}/ containing:
   * patch.diff  — `git -C {wt} diff` of exactly this change against the clean worktree (it must apply with `git apply` to a clean checkout);
   * demo.py     — a small self-contained program (plain asserts, no pytest needed, runtime under ~60 s, deterministic: fix seeds) that demonstrates the violation of the property through the library's public behaviour: it must exit with status 0 on the UNCHANGED library and with a non-zero status (failed assert) when the change is applied. It is run as: cd <checkout> && PYTHONPATH=<checkout> /venv/bin/python demo.py  — so do not hard-code {wt} in it (use `import pyhms`, and os.path.dirname(pyhms.__file__) if you need the location);
   * meta.json   — {{"property": "{p['id']}", "summary": "<one line: what was changed>", "needs": "<what specific situation is needed for the violation to manifest>", "files": ["..."], "tests": "<how many tests passed with the change>"}}.
 After writing each variant's files, restore the worktree with `git -C {wt} checkout -- .` (and delete any stray files you created inside it) before starting the next one, so that each patch is independent. Before finishing, verify for every variant, starting from a clean worktree: (1) demo.py exits 0 without the patch; (2) after `git apply patch.diff`, demo.py exits non-zero AND the full test-suite passes (55 passed); then restore the worktree again. If a variant cannot satisfy all of this, replace it by another idea rather than weakening the requirements.
+
+{excl}
 
 Finish with a short report listing, per variant, the summary, the files touched and the verification results you observed. Leave the worktree clean.""")
